@@ -496,6 +496,10 @@ def _explore(farm, mod, tier, verif_seed, budget_s, n_cases, fingerprints_out, t
                 import traceback
                 harness.append((c["seed"], f"oracle raised {type(e).__name__}: {e}\n{traceback.format_exc()[-1500:]}"))
                 continue
+            if os.environ.get("RSIM_SURVEY"):
+                for v in vs:
+                    cov.extra.setdefault("_survey", {}).setdefault(v["sig"], [0, c["seed"], v.get("detail", "")[:600]])[0] += 1
+                continue
             for v in vs:
                 f = match_finding(findings, v["sig"])
                 if f:
@@ -503,11 +507,14 @@ def _explore(farm, mod, tier, verif_seed, budget_s, n_cases, fingerprints_out, t
                     continue
                 if not any(x[0] == v["sig"] for x in violations):
                     violations.append((v["sig"], c, res, v.get("detail", "")))
-            if len(violations) >= cfg.get("max_violations", 2):
+            if len(violations) >= cfg.get("max_violations", 3):
                 stop = True
                 break
     wall_explore = time.monotonic() - t0
     rc = 0
+    if os.environ.get("RSIM_SURVEY"):
+        for sig, (n, seed, detail) in sorted(cov.extra.get("_survey", {}).items()):
+            print(f"SURVEY {n:5d}x {sig}  (first seed {seed})\n        {detail[:500]}")
     for f, n in known_seen.values():
         print(f"KNOWN-FINDING: property={prop} {f['what']} [signature={f['signature']}; seen {n}x]")
     reported = 0
